@@ -33,6 +33,7 @@ type BlockCtx struct {
 	Res      *abci.ResponseFinalizeBlock
 	Txs      []TxRecord
 	Ref      *Node
+	Fork     *ForkResult // counterfactual execution without one transaction (nil when not requested)
 }
 
 type Oracle interface {
@@ -45,15 +46,15 @@ type Oracle interface {
 
 // Executor drives the chain from PRNG-free HeightPlans.
 type Executor struct {
-	C        *Chain
-	Oracles  []Oracle
-	Viol     []*Violation
-	Target   string // property whose violation ends the run (fatal ones always do)
-	Known    map[string]bool // signatures listed as open known findings: reported, but they do not end the run
-	seenSig  map[string]bool
+	C       *Chain
+	Oracles []Oracle
+	Viol    []*Violation
+	Target  string          // property whose violation ends the run (fatal ones always do)
+	Known   map[string]bool // signatures listed as open known findings: reported, but they do not end the run
+	seenSig map[string]bool
 	// hook for oracles that need to look at handler-level events (C17)
 	OnProposal func(h int64, round int32, proposer *Node, req *abci.RequestPrepareProposal, txs [][]byte, honest bool)
-	intentOf map[string]int // tx bytes hash -> intent id
+	intentOf   map[string]int // tx bytes hash -> intent id
 }
 
 func NewExecutor(c *Chain, oracles []Oracle) *Executor {
@@ -435,6 +436,24 @@ func (e *Executor) Step(p *HeightPlan) error {
 		return internalf("height %d: plan gives only %d of %d power; generator must keep > 2/3", h, votedPower, totalPower(vs))
 	}
 
+	// counterfactual fork requested for one intent of this block: clone a node's state at h-1 now
+	var fork *ForkResult
+	forkIdx := -1
+	if p.ForkIntent != 0 {
+		for i, tx := range txs {
+			if id, ok := e.intentOf[string(tx)]; ok && id == p.ForkIntent {
+				forkIdx = i
+			}
+		}
+		if forkIdx >= 0 {
+			f, err := e.startFork(prop)
+			if err != nil {
+				return err
+			}
+			fork = f
+			defer fork.close()
+		}
+	}
 	// decide: every executing node runs the block
 	req := &abci.RequestFinalizeBlock{Height: h, Time: t, Txs: txs, DecidedLastCommit: lastCommit, Hash: hash,
 		ProposerAddress: ppReq.ProposerAddress}
@@ -578,6 +597,11 @@ func (e *Executor) Step(p *HeightPlan) error {
 		return internalf("no node at tip after height %d", h)
 	}
 	bc := &BlockCtx{H: h, Time: t, PrevTime: prevTime, Plan: p, Req: req, Res: firstRes, Txs: recs, Ref: ref}
+	if fork != nil {
+		if err := e.finishFork(fork, req, forkIdx); err == nil {
+			bc.Fork = fork
+		}
+	}
 	for _, o := range e.Oracles {
 		e.report(o.AfterBlock(c, bc)...)
 	}
